@@ -221,7 +221,7 @@ def tlc(module, cfg=None, subdir=None, workers=1, heap="4g", timeout=900, env=No
                    generated=int(m.group(1)) if m else 0, distinct=int(m.group(2)) if m else 0,
                    left=int(m.group(3)) if m else -1)
         res["violated"] = ("Error: Invariant" in out) or ("is violated" in out) or ("Error: Deadlock" in out) \
-            or ("Temporal properties were violated" in out) or ("Error: Action property" in out)
+            or ("Temporal properties were violated" in out) or ("was violated" in out) or ("Error: Action property" in out)
         res["ok"] = ("Model checking completed. No error has been found." in out) or \
                     (simulate is not None and p.returncode == 0 and not res["violated"])
         if not res["ok"] and not res["violated"]:
